@@ -175,8 +175,9 @@ def struct_of_method(encoding, fn, pattern):
 def row_of_class(encoding, operand, cls):
     """(name, id, mnemonic, kinds, enc_layout, dec_layout, enc_struct, dec_struct)"""
     names, kinds = operand_fields(cls)
-    enc_struct = struct_of_method(encoding, cls.serialize, r"encoding\.(\w+Command)\(")
-    dec_struct = struct_of_method(encoding, cls.deserialize_from, r"encoding\.(\w+Command)\.from_buffer_copy")
+    # the struct a method works with = the one *Command struct its source names (however it is called)
+    enc_struct = struct_of_method(encoding, cls.serialize, r"encoding\.(\w+Command)\b")
+    dec_struct = struct_of_method(encoding, cls.deserialize_from, r"encoding\.(\w+Command)\b")
     nleaf = sum(NLEAVES[k] for k in kinds)
 
     def build(leafvals):
